@@ -21,9 +21,10 @@ K == H \div 2
 M == 2^H
 RECURSIVE BitLen(_)
 BitLen(x) == IF x = 0 THEN 0 ELSE 1 + BitLen(x \div 2)
-RECURSIVE ISqrtFrom(_, _)
-ISqrtFrom(n, s) == IF (s + 1) * (s + 1) <= n THEN ISqrtFrom(n, s + 1) ELSE s
-ISqrt(n) == ISqrtFrom(n, IF n = 0 THEN 0 ELSE 2^((BitLen(n) - 1) \div 2))
+\* floor square root, bit by bit from the top (depth = half the bit length)
+RECURSIVE ISqrtBits(_, _, _)
+ISqrtBits(n, s, k) == IF k < 0 THEN s ELSE ISqrtBits(n, IF (s + 2^k) * (s + 2^k) <= n THEN s + 2^k ELSE s, k - 1)
+ISqrt(n) == ISqrtBits(n, 0, H)
 B01(c) == IF c THEN 1 ELSE 0
 
 Normalized(n) ==       \* n has 2H or 2H - 1 bits
